@@ -6,40 +6,46 @@ import ast as _ast
 def _c10_tables():
     tree = src("hdl21/elab/passes/base.py")
     fn = find_func(tree, "flatname", cls="ElabPass")
-    kw = [a.arg for a in fn.args.kwonlyargs]
-    if "maxlen" not in kw:
+    # the default of the live signature is what is emitted; the default of the source (a literal, or the name of a module-level
+    # constant) must agree when it can be read
+    import inspect
+    from hdl21.elab.passes.base import ElabPass
+    par = inspect.signature(ElabPass.flatname).parameters.get("maxlen")
+    if par is None or par.kind is not inspect.Parameter.KEYWORD_ONLY:
         die("ElabPass.flatname has no keyword-only argument maxlen")
-    default = fn.args.kw_defaults[kw.index("maxlen")]
-    if default is None:
-        die("ElabPass.flatname: maxlen has no default")
-    maxlen = const_int(default)
+    if type(par.default) is not int:
+        die("ElabPass.flatname: maxlen has no integer default")
+    maxlen = par.default
     if maxlen < 1:
         die(f"ElabPass.flatname: implausible maxlen {maxlen}")
-    # the separator and the collision suffix are literals of the function body
+    kw = [a.arg for a in fn.args.kwonlyargs]
+    if "maxlen" in kw and fn.args.kw_defaults[kw.index("maxlen")] is not None:
+        lit = soft(const_int, resolve_const(tree, fn.args.kw_defaults[kw.index("maxlen")]))
+        if lit is not None and lit != maxlen:
+            die(f"flatname maxlen: source says {lit}, live object says {maxlen}")
+    # the separator and the collision suffix: BEHAVIOUR of the live method (two segments; the same with the plain name taken,
+    # and with that one taken as well); the literals of the function body must agree when they can be read
+    p = ElabPass(tops=[])
+    got = [p.flatname(["ab", "cd"]), p.flatname(["ab", "cd"], avoid={"ab_cd": 1}), p.flatname(["ab", "cd"], avoid={"ab_cd": 1, "ab_cd_": 1}),
+           p.flatname(["ab"]), p.flatname(["ab", "cd", "ef"])]
+    if got != ["ab_cd", "ab_cd_", "ab_cd__", "ab", "ab_cd_ef"]:
+        die(f"ElabPass.flatname: expected separator '_' and collision suffix '_', the live method gives {got}")
     seps = [n.func.value.value for n in _ast.walk(fn) if isinstance(n, _ast.Call) and isinstance(n.func, _ast.Attribute)
             and n.func.attr == "join" and isinstance(n.func.value, _ast.Constant)]
     sufs = [n.value.value for n in _ast.walk(fn) if isinstance(n, _ast.AugAssign) and isinstance(n.op, _ast.Add)
             and isinstance(n.value, _ast.Constant)]
-    if seps != ["_"] or sufs != ["_"]:
+    if (seps and seps != ["_"]) or (sufs and sufs != ["_"]):
         die(f"ElabPass.flatname: expected separator '_' and collision suffix '_', found {seps} / {sufs}")
-    # PortDir members, in order
-    cls = find_class(src("hdl21/signal.py"), "PortDir")
-    members = []
-    for st in cls.body:
-        if isinstance(st, _ast.Assign) and len(st.targets) == 1 and isinstance(st.targets[0], _ast.Name):
-            if not (isinstance(st.value, _ast.Constant) and isinstance(st.value.value, str)):
-                die(f"PortDir.{st.targets[0].id}: expected a string literal")
-            members.append(st.targets[0].id)
+    # PortDir members, in order: the live enum; the class body of the source must agree where its members are string literals
+    from hdl21.signal import PortDir
+    members = [m.name for m in PortDir]
     if members != ["INPUT", "OUTPUT", "INOUT", "NONE"]:
         die(f"PortDir members changed: {members}")
-    # cross-check against the live objects
-    import inspect
-    from hdl21.elab.passes.base import ElabPass
-    from hdl21.signal import PortDir
-    live = inspect.signature(ElabPass.flatname).parameters["maxlen"].default
-    if live != maxlen:
-        die(f"flatname maxlen: source says {maxlen}, live object says {live}")
-    if [m.name for m in PortDir] != members:
+    cls = soft(find_class, src("hdl21/signal.py"), "PortDir")
+    lit = [st.targets[0].id for st in (cls.body if cls is not None else [])
+           if isinstance(st, _ast.Assign) and len(st.targets) == 1 and isinstance(st.targets[0], _ast.Name)
+           and isinstance(st.value, _ast.Constant) and isinstance(st.value.value, str)]
+    if lit and [m for m in lit if m in members] != [m for m in members if m in lit]:
         die("PortDir: live members differ from the source")
     body = (f"Definition flatname_maxlen : Z := {cz(maxlen)}.\n"
             f"Definition flatname_sep : string := {cstr('_')}.\n"
